@@ -1,5 +1,6 @@
 # -*- coding: utf-8 -*-
 import numpy as np
+import datetime
 from pyg_base._types import is_nan, is_iterable
 from pyg_base._loop import len0
 from pyg_base._as_primitive import as_primitive
@@ -47,8 +48,9 @@ def cmp(x,y):
         return 0
     x,y = as_primitive([x,y])
     ## ints rank among the floats but keep their exact value: python compares int with float exactly, a cast to float would merge ints beyond 2**53
-    tx = str(float) if isinstance(x, int) and not isinstance(x, bool) else str(type(x))
-    ty = str(float) if isinstance(y, int) and not isinstance(y, bool) else str(type(y))
+    ## ... and a pandas Timestamp is a datetime: it ranks where datetimes rank and is compared with them as an instant
+    tx = str(float) if isinstance(x, int) and not isinstance(x, bool) else str(datetime.datetime) if isinstance(x, datetime.datetime) else str(type(x))
+    ty = str(float) if isinstance(y, int) and not isinstance(y, bool) else str(datetime.datetime) if isinstance(y, datetime.datetime) else str(type(y))
     if tx<ty:
         return -1
     elif ty<tx:
